@@ -137,7 +137,7 @@ CHECKS = {
         engine="vdb"),
     "C22": _db("A corpus of user types deriving agdb::DbType and agdb::DbElement (required + optional fields, optional only, plain; scalars, strings and byte arrays across the inline limit, bool, f64, "
                "vectors of strings / integers / floats, Option fields, id fields of type Option<DbId> and Option<QueryId>, a type "
-               "without id, a type with #[agdb(rename)] on a required and on an optional field, a #[agdb(flatten)] nested type and a #[agdb(skip)] field) is inserted with insert().element / elements, updated through the id field, and selected back as that "
+               "without id, a type with #[agdb(rename)] on a required and on an optional field, a #[agdb(flatten)] nested type and a #[agdb(skip)] field, custom value types deriving DbValue + DbTypeMarker + DbSerialize as a field / in a vector / optional) is inserted with insert().element / elements, updated through the id field, and selected back as that "
                "type, on DbMemory, DbFile and Db. The trace carries InsertValues events whose pairs are the HAND-WRITTEN expectation "
                "of the documented mapping (keys = field names or their renames in declaration order, flattened fields in place, db_id and skipped fields absent, None => key absent), not the "
                "macro's output; DbTrace applies them to DbModel and the Observe taken from the real database after each step must "
